@@ -249,6 +249,25 @@ theorem C01_reject_post10_without_length (h : ReqHead) (hv : h.version = 0) (hm 
     ∃ e, requestFraming h = .error e :=
   requestFraming_post10 h hv hm hcl hup
 
+/-- **C01_accept_te_unambiguous**: the converse direction — a head that is *accepted* and carries
+a Transfer-Encoding header is HTTP/1.1, has no Content-Length, every TE value is `chunked`, and
+its body is decoded by the chunked decoder (no second interpretation is possible). -/
+theorem C01_accept_te_unambiguous (h : ReqHead) (pt : PayloadType) (hv : h.version ≤ 1)
+    (hok : requestFraming h = .ok pt) (val : Bytes) (hm : (bTransferEncoding, val) ∈ h.headers) :
+    h.version = 1 ∧ hasHeader bContentLength h.headers = false ∧ teIsChunked val = true ∧
+      pt = .payload (.chunked .size 0) :=
+  requestFraming_te_accepted h pt hv hok val hm
+
+/-- **C01_accept_cl_decimal**: every Content-Length header of an accepted head has a decimal
+value below 2^64 (`C01_cl_value_is_decimal`); with `C01_reject_dup_cl` there is exactly one. -/
+theorem C01_accept_cl_decimal (h : ReqHead) (pt : PayloadType)
+    (hok : requestFraming h = .ok pt) (val : Bytes) (hm : (bContentLength, val) ∈ h.headers) :
+    ∃ n, clValue val = some n :=
+  requestFraming_cl_accepted h pt hok val hm
+
+example : requestFraming ⟨bPOST, [47], 1, [(bTransferEncoding, bChunked)]⟩ =
+    .ok (.payload (.chunked .size 0)) := by rfl
+
 /-- **C01_cl_zero_is_no_body**: `Content-Length: 0` is normalised to "no body" (so that a
 zero-length decoder can never swallow the next request's first byte). -/
 theorem C01_cl_zero_is_no_body (m : Bytes) :
